@@ -122,8 +122,7 @@ def explain(case, obs):
 
 def guard(case, obs):
     """Inputs inside the guard class of a kept finding: the model mirrors a defect there, K is silent."""
-    o = case['opts']
-    return o['max_iter'] <= 0 and o['min_iter'] <= o['max_iter']
+    return False      # finding #1 (max_iter = 0) was repaired; no kept finding of C02 remains
 
 
 def _pos(case):
